@@ -27,4 +27,34 @@ def c10Mismatch (cfg : Config) (obs : List (List Nat)) : Option (Nat × Nat) :=
       | some j => some (i, j)
       | none => none)
 
+/-! ### target paths that may be written with one trailing separator -/
+
+/-- decidable twin of `DependsOnD`: the relation between the *directories* the two targets name -/
+def dependsOnDB (T U : Target) : Bool :=
+  withinB (dirOf U.path) (dirOf T.path) || T.uses.any (fun u => withinB (dirOf U.path) u)
+
+/-- two targets naming one directory -/
+def hasDupDir : Config → Bool
+  | [] => false
+  | t :: ts => ts.any (fun u => dirOf u.path = dirOf t.path) || hasDupDir ts
+
+/-- decidable twin of `WFD` -/
+def wfDB (cfg : Config) : Bool := !hasDupDir cfg && cfg.all (fun t => normalB (dirOf t.path))
+
+def specDepsD (cfg : Config) (i : Nat) : List Nat :=
+  match cfg[i]? with
+  | none => []
+  | some T => (List.range cfg.length).filter (fun j =>
+      j != i && (match cfg[j]? with | some U => dependsOnDB T U | none => false))
+
+def c10MismatchD (cfg : Config) (obs : List (List Nat)) : Option (Nat × Nat) :=
+  (List.range cfg.length).findSome? (fun i =>
+    let o := obs.getD i []
+    let s := specDepsD cfg i
+    match s.find? (fun j => !o.contains j) with
+    | some j => some (i, j)
+    | none => match o.find? (fun j => !s.contains j) with
+      | some j => some (i, j)
+      | none => none)
+
 end Monorail
